@@ -193,7 +193,7 @@ def run_case(case):
         ns = int(rng.integers(500, 4000))
         mn, ma, xa = int(rng.integers(0, 3)), int(rng.integers(0, 3)), int(rng.integers(1, 4))
         aimax = float(rng.choice([5, 10]))
-        rec = G.make_nidq(rng, mn=mn, ma=ma, xa=xa, dw=1, mn_gain=float(rng.choice([1, 200])), aimax=aimax, ns=ns,
+        rec = G.make_nidq(rng, mn=mn, ma=ma, xa=xa, dw=1, acq="random", mn_gain=float(rng.choice([1, 200])), aimax=aimax, ns=ns,
                           fs=float(rng.choice([30003.0003, 25000.0])))
         nl = int(rng.integers(1, 9))
         lines = np.sort(rng.choice(8, nl, replace=False))
